@@ -4,6 +4,7 @@ import (
 	"bytes"
 	"fmt"
 	"os"
+	"reflect"
 	"strings"
 	"sync"
 	"time"
@@ -379,15 +380,38 @@ func c20Bundled(c *Ctx) {
 					dname := dwant + "x"
 					suffix := []string{"|d", "|ms", "|c"}[ki]
 					n := 0
+					var sent []float64
 					for _, line := range strings.Split(out, "\n") {
 						if strings.HasPrefix(line, dname+":") && strings.HasSuffix(strings.Split(line, "|#")[0], suffix) {
 							n++
+							var v float64
+							fmt.Sscanf(strings.TrimPrefix(line, dname+":"), "%g", &v)
+							sent = append(sent, v)
 						}
 					}
 					states[fmt.Sprintf("dd|%s|%s", dname, suffix)] = true
 					if n != len(vals) {
 						fail("datadog/"+kind, "%s %q under prefix %q: %d datagrams named %q with type %q for %d samples; wrote %q", kind, id, prefix, n, dname, suffix, len(vals), out)
+					} else if fmt.Sprint(sent) != fmt.Sprint(vals) {
+						fail("datadog/"+kind+"/value", "%s %q under prefix %q: datagrams carry the values %v, the samples were %v; wrote %q", kind, id, prefix, sent, vals, out)
 					}
+				}
+			}
+		}
+	}
+	// the constructor that dials an address normalises the prefix like its twin (the UDP socket is
+	// never written to; skipped if it cannot be opened or the private field is gone)
+	for _, prefix := range []string{"svc", "svc."} {
+		if r, err := ddreg.NewMetricRegistry("127.0.0.1:8125", prefix, 0); err == nil && r != nil {
+			st.Transitions++
+			if f, ok := mc.Field(r, "prefix"); ok && f.Kind() == reflect.String {
+				if got := f.String(); got != "svc." {
+					fail("datadog/constructor-prefix", "NewMetricRegistry(addr, %q, …) keeps the prefix %q, NewMetricRegistryWithClient normalises it to %q", prefix, got, "svc.")
+				}
+			}
+			if c, ok := mc.Field(r, "client"); ok && c.Kind() == reflect.Ptr && !c.IsNil() {
+				if cl, ok := fieldIface(c).(*dogstatsd.Client); ok {
+					cl.Close()
 				}
 			}
 		}
